@@ -355,12 +355,7 @@ def classify(mod, ops, recs, out, ref):
     return 'C08:%s:unclassified:%s' % (mod, '/'.join(o[0] + (':' + o[3] if o[0] == 'seed' else '') for o in ops))
 
 
-WHAT = {
-    'C08:basex:wrong-shape-file-extended':
-        'basex: to extend it, get_bs_cached loads the largest existing basis file of the same sigma without a shape check; '
-        'a valid .npy that is not what its name promises and fits into the requested basis is used as its lower-left block '
-        'silently (and the wrong basis is saved)',
-}
+WHAT = {}
 
 
 def gen_damage_history(ad, rng, L):
@@ -541,13 +536,13 @@ def run(ctx):
                                 CHUNK_SNIPPET, dict(info=info)))
             else:
                 broken.append(('strace', 'basis files not saved atomically: %r' % bad))
-        # the extension path of basex (remaining finding): a wrong-shape smaller file of the same sigma
+        # the extension path of basex (fixed in 6203711): a wrong-shape smaller file of the same sigma
         rc, out = vlib.run_snippet(BASEX_EXTEND_SNIPPET)
         n_eval += 1
         if rc != 0:
             hits.append(Hit('fault_outcome', 'C08:basex:wrong-shape-file-extended',
-                            WHAT['C08:basex:wrong-shape-file-extended'] + ': ' + out.strip().splitlines()[-1][:120],
-                            BASEX_EXTEND_SNIPPET, {}))
+                            'basex: a valid .npy that is not what its name promises is used as the block to extend: '
+                            + out.strip().splitlines()[-1][:120], BASEX_EXTEND_SNIPPET, {}))
         # search: verdicts
         seen = {}
         # (a) sweeps: second call after removal / re-save
